@@ -553,6 +553,21 @@ func enumerate(quick bool, yield func(p *Program)) {
 			}
 		}
 	}
+	// G4  a pass-through reached from START directly and through a detour: START(X) -> branch cond[X] -> {p1 pass, a[X>Y]};
+	//     a -> p1; p1 -> b[T>string] -> END(any). Depending on the call order p1 is typed from START (graph input type,
+	//     which differs from the graph's output type), from a's output or from b's input; the other edges are checked
+	//     against that type, at build time or - where an interface type is involved - at run time.
+	for _, x := range U {
+		for _, y := range U {
+			for _, t := range U {
+				if quick && !(t == x || t == y || t == tAny) {
+					continue
+				}
+				emit(fromCalls("start-and-detour-into-pass", x, tAny, []*Node{pass("p1"), lam("a", x, y), lam("b", t, tString)},
+					[]Call{branch(START, x, "p1", "a"), edge("a", "p1"), edge("p1", "b"), edge("b", END)})[:1])
+			}
+		}
+	}
 	if quick {
 		return
 	}
